@@ -204,15 +204,17 @@ class ProofState():
         self.check_proof(compute_only=True)
 
         # Test if the goals are already proved:
+        removed = []
         for item in new_prf.items:
             if item.rule == 'sorry':
                 new_id = self.find_goal(self.get_proof_item(item.id).th, item.id)
                 if new_id is not None:
                     self.replace_id(item.id, new_id)
+                    removed.append(item)
 
-        # Resolve trivial subgoals
+        # Resolve trivial subgoals (items removed above are no longer in the proof)
         for item in new_prf.items:
-            if item.rule == 'sorry':
+            if item.rule == 'sorry' and not any(item is r for r in removed):
                 if logic.trivial_macro().can_eval(item.th.prop):
                     self.set_line(item.id, 'trivial', args=item.th.prop)
 
